@@ -352,6 +352,7 @@ type scenario struct {
 	schedule  []cut
 	singleton bool
 	sendClear bool
+	relicense bool // change the client's default license between two phases of sends
 }
 
 var licenses = []string{"", "x4ab2-lic-default", "라이선스-ключ-🔑", strings.Repeat("L", 300)}
@@ -442,11 +443,15 @@ func runScenario(c *vlib.Ctx, sc scenario, r *vlib.Rand, label string) {
 	}
 	items := make([][]item, sc.senders)
 	total := 0
+	newLic := "re-" + defLic + "-licensed"
 	for s := 0; s < sc.senders; s++ {
 		sr := r.Fork(fmt.Sprint("sender", s))
 		for q := 0; q < sc.perSender; q++ {
 			p, pcode := mkPack(sr, s, q, sc.bigFrames)
 			lic := defLic
+			if sc.relicense && q >= sc.perSender/2 {
+				lic = newLic
+			}
 			var opt []wnet.TcpClientOption
 			if sr.Intn(3) == 0 {
 				lic = fmt.Sprintf("override-%d-%s", s, sr.Ident())
@@ -480,42 +485,52 @@ func runScenario(c *vlib.Ctx, sc scenario, r *vlib.Rand, label string) {
 		}()
 	}
 	var swg sync.WaitGroup
-	for s := 0; s < sc.senders; s++ {
-		swg.Add(1)
-		go func(s int) {
-			defer swg.Done()
-			for q := range items[s] {
-				it := &items[s][q]
-				o := atomic.AddInt32(&open, 1)
-				for {
-					m := atomic.LoadInt32(&maxOpen)
-					if o <= m || atomic.CompareAndSwapInt32(&maxOpen, m, o) {
-						break
-					}
-				}
-				it.ev.t0 = int64(time.Since(start))
-				var e error
-				if q%2 == 0 {
-					e = cl.Send(it.p, it.opt...)
-				} else {
-					e = cl.SendFlush(it.p, true, it.opt...)
-				}
-				it.ev.t1 = int64(time.Since(start))
-				atomic.AddInt32(&open, -1)
-				if e != nil {
-					it.ev.err = e.Error()
-					if strings.Contains(it.ev.err, "cannot connect") {
-						col.noteRefused()
-					}
-				}
-				evs[s] = append(evs[s], it.ev)
-				if (s+q)%3 == 0 {
-					runtime.Gosched()
-				}
-			}
-		}(s)
+	phases := [][2]int{{0, sc.perSender}}
+	if sc.relicense {
+		phases = [][2]int{{0, sc.perSender / 2}, {sc.perSender / 2, sc.perSender}}
 	}
-	swg.Wait()
+	for pi, ph := range phases {
+		if pi == 1 {
+			// no send is in flight: the default license changes (what a configuration reload does)
+			cl.License = newLic
+		}
+		for s := 0; s < sc.senders; s++ {
+			swg.Add(1)
+			go func(s int, lo, hi int) {
+				defer swg.Done()
+				for q := lo; q < hi; q++ {
+					it := &items[s][q]
+					o := atomic.AddInt32(&open, 1)
+					for {
+						m := atomic.LoadInt32(&maxOpen)
+						if o <= m || atomic.CompareAndSwapInt32(&maxOpen, m, o) {
+							break
+						}
+					}
+					it.ev.t0 = int64(time.Since(start))
+					var e error
+					if q%2 == 0 {
+						e = cl.Send(it.p, it.opt...)
+					} else {
+						e = cl.SendFlush(it.p, true, it.opt...)
+					}
+					it.ev.t1 = int64(time.Since(start))
+					atomic.AddInt32(&open, -1)
+					if e != nil {
+						it.ev.err = e.Error()
+						if strings.Contains(it.ev.err, "cannot connect") {
+							col.noteRefused()
+						}
+					}
+					evs[s] = append(evs[s], it.ev)
+					if (s+q)%3 == 0 {
+						runtime.Gosched()
+					}
+				}
+			}(s, ph[0], ph[1])
+		}
+		swg.Wait()
+	}
 
 	// recovery probe (fault scenarios, direct mode): after the schedule is exhausted keep
 	// sending until a send is acknowledged AND received.
@@ -917,6 +932,9 @@ func main() {
 	})
 	c.Cases("healthy-multi", scale(40, 800), func(i int, r *vlib.Rand) {
 		runScenario(c, scenario{kind: "healthy-multi", senders: r.Range(2, 32), perSender: r.Range(20, 120), gomax: gomaxes[i%4]}, r, fmt.Sprint("healthy-multi#", i))
+	})
+	c.Cases("healthy-relicense", scale(12, 200), func(i int, r *vlib.Rand) {
+		runScenario(c, scenario{kind: "healthy-relicense", senders: r.Range(1, 8), perSender: r.Range(10, 80), gomax: gomaxes[i%4], relicense: true, bg: i%3 == 0}, r, fmt.Sprint("healthy-relicense#", i))
 	})
 	c.Cases("healthy-big", scale(6, 60), func(i int, r *vlib.Rand) {
 		runScenario(c, scenario{kind: "healthy-big", senders: r.Range(1, 4), perSender: r.Range(4, 10), gomax: gomaxes[i%4], bigFrames: true}, r, fmt.Sprint("healthy-big#", i))
